@@ -359,3 +359,40 @@ def zint(v):
 def zreal(v):
   f = to_frac(v)
   return z3.RealVal(str(f.numerator) + "/" + str(f.denominator)) if f.denominator != 1 else z3.RealVal(f.numerator)
+
+
+def _shape_tag(v):
+  t = getattr(v, "tag", None)
+  if isinstance(v, SNum) and isinstance(t, dict) and "shape" in t:
+    return tuple(t["shape"])
+  return None
+
+
+def broadcast_shape(vals):
+  """numpy-style broadcast of the extents recorded on symbolic tensor elements (None when none carries extents)."""
+  shapes = [sh for sh in (_shape_tag(v) for v in vals) if sh is not None]
+  if not shapes:
+    return None
+  rank = max(len(sh) for sh in shapes)
+  out = []
+  for i in range(rank):
+    d = 1
+    for sh in shapes:
+      j = i - (rank - len(sh))
+      if j >= 0:
+        x = sh[j]
+        if not (isinstance(x, int) and x == 1):
+          d = x
+    out.append(d)
+  return tuple(out)
+
+
+def inherit_shape(out, vals):
+  """Element-wise operations keep the (broadcast) extents of their tensor operands."""
+  if isinstance(out, SNum) and _shape_tag(out) is None and out.pytype == "tensor":
+    sh = broadcast_shape(vals)
+    if sh is not None:
+      tag = dict(out.tag) if isinstance(out.tag, dict) else {}
+      tag["shape"] = sh
+      return SNum(out.e, out.pytype, out.grad, tag)
+  return out
